@@ -74,6 +74,15 @@ func checkBytes(p unsafe.Pointer, n uintptr, seed byte) bool {
 }
 
 func testRegistry(rt *rapid.T, st *RunStats) {
+	// every call made below is valid unless it is wrapped in try(): an unexpected panic of the library is a violation
+	defer func() {
+		if r := recover(); r != nil {
+			if isRapidPanic(r) {
+				panic(r)
+			}
+			rt.Fatalf("VIOLATION-CASE property=C18 sig=registry|panic|unexpected\nunexpected panic: %v", r)
+		}
+	}()
 	max := MaskBits
 	w := ecs.NewWorld(rapid.SampledFrom([]int{1, 2, 8, 64}).Draw(rt, "cap"))
 	u := w.Unsafe()
@@ -151,7 +160,14 @@ func testRegistry(rt *rapid.T, st *RunStats) {
 		return ents[i].e
 	}
 	// checkTracked compares every tracked entity, through the ID-based API, Map[T] and Filter1[T], with the model
+	var checkTrackedInner func(where string)
 	checkTracked := func(where string) {
+		// every call in here is a valid call on registered types and live entities: a panic is a violation
+		if p := try(func() { checkTrackedInner(where) }); p != nil {
+			failf("registry|typed|panic", "%s: valid typed / ID-based access panicked (%d types registered): %v", where, len(m.order), p)
+		}
+	}
+	checkTrackedInner = func(where string) {
 		for c := 0; c < comps.N; c++ {
 			idx, ok := m.ids[c]
 			if !ok {
@@ -404,6 +420,43 @@ func testRegistry(rt *rapid.T, st *RunStats) {
 				}
 			}
 			checkTracked("after removeTracked")
+		},
+		"reset": func(t *rapid.T) {
+			// Reset removes entities and resources, the registries stay
+			if p := try(func() { w.Reset() }); p != nil {
+				failf("registry|reset|panic", "Reset panicked: %v", p)
+			}
+			res := w.Resources()
+			for k := range resM.order {
+				rid := ecs.ResourceTypeID(w, regType(resM.order[k]))
+				if int(rid.Index()) != k {
+					failf("resources|reset|id", "resource type %d maps to ID %d after Reset", k, rid.Index())
+				}
+				if res.Has(rid) || res.Get(rid) != nil {
+					failf("resources|reset|present", "resource %d (of %d registered) is still present after Reset", k, len(resM.order))
+				}
+			}
+			if len(resVal) > 0 {
+				cls["reset-with-resources"] = true
+				for k := range resVal {
+					if int(k) >= 64 {
+						cls["reset-with-resource-id-above-word-0"] = true
+					}
+				}
+			}
+			resVal = map[uint8]*int{}
+			// (handles from before the Reset are re-issued afterwards, so nothing is asked about them)
+			q := ecs.NewFilter0(w).Query()
+			if n := q.Count(); n != 0 {
+				q.Close()
+				failf("registry|reset|entities", "%d entities after Reset", n)
+			}
+			q.Close()
+			ents = nil
+			if n := len(ecs.ComponentIDs(w)); n != len(m.order) {
+				failf("registry|reset|count", "Reset changed the number of component IDs to %d (was %d)", n, len(m.order))
+			}
+			checkTracked("after reset")
 		},
 		"registerLocked": func(t *rapid.T) {
 			if len(m.order) >= max || next >= nRegTypes-1 {
